@@ -97,6 +97,38 @@ func init() {
 	reg("R-NILNODE", "In the main package a node handed out by a data-structure package that may be absent (the tail / first link of an empty skiplist, a failed dictionary lookup, an explicit nil, also through wrappers that return it with a nil error) is dereferenced - field read, or passed to a method that reads it - only behind a != nil test.", ruleNilNode)
 	addRules("C20", "R-NILNODE")
 	addRules("C07", "R-NILNODE")
+	// round 5 wiring: rules that decided a round-5 seed written against another property that rests on the same clause
+	addRules("C03", "R-LOGGED")
+	addRules("C05", "R-ERRPOLICY")
+	addRules("C06", "R-ERRPOLICY", "R-BUCKETKEY")
+	addRules("C07", "R-ERRPOLICY")
+	addRules("C09", "R-ORDER")
+	addRules("C10", "R-RWPARITY")
+	addRules("C11", "R-RECOVER", "R-RECOVER-ORDER")
+	addRules("C13", "R-REPLAY", "R-MERGE-KEEPORDER")
+	addRules("C01", "R-MERGE-KEEPORDER")
+	addRules("C16", "R-MERGE-NEWER")
+	reg("R-LOCKPAIR", "Every direct acquisition of DB.mu outside the transaction lock functions (Lock/RLock not reached through a Tx) is followed on every path to a return by the matching Unlock/RUnlock call or a deferred one.", ruleLockPair)
+	addRules("C14", "R-LOCKPAIR")
+	addRules("C17", "R-LOCKPAIR")
+	addRules("C20", "R-LOCKPAIR")
+	reg("R-CLOSE-KEEP", "The cone of DB.Close reaches no file-removing, -resizing, -renaming or -creating primitive: Close leaves the directory exactly as the writes produced it.", ruleCloseKeep)
+	addRules("C22", "R-CLOSE-KEEP", "R-APPLY-ALL")
+	addRules("C08", "R-CLOSE-KEEP")
+	addRules("C09", "R-CLOSE-KEEP")
+	addRules("C19", "R-APPLY-ALL")
+	reg("R-NILMAP", "Every store into a map-valued field of DB that some function sets to nil (Open drops DB.committedTxIds after the sparse-mode rebuild) is behind a test of Options.EntryIdxMode that excludes the dropping mode, behind a != nil test of the field, or after a make() in the same function.", ruleNilMap)
+	addRules("C20", "R-NILMAP")
+	reg("R-ACTIVE-RESUME", "Every call of a function that installs an existing segment (getDataPath(MaxFileID), not MaxFileID+k) as DB.ActiveFile is followed on every path to a successful return - except behind an empty segment listing - by a store that restores DB.ActiveFile.writeOff.", ruleActiveResume)
+	for _, id := range []string{"C09", "C10", "C15", "C08"} {
+		addRules(id, "R-ACTIVE-RESUME")
+	}
+	reg("R-MERGE-KVONLY", "Every comparison in Merge of the scan position with the Hint of the record the key/value index holds for the scanned bucket and key is dominated by ds == DataStructureBPTree of the scanned entry: only key/value records can be superseded through that index.", ruleMergeKVOnly)
+	for _, id := range []string{"C15", "C04", "C05", "C06", "C07"} {
+		addRules(id, "R-MERGE-KVONLY")
+	}
+	addRules("C21", "R-CAPACITY-AGREE")
+	addRules("C19", "R-NEWEST")
 	reg("R-MEMBER-NEG", "The membership predicates of ds/set (methods of *Set whose first result is a bool) return false only on a path on which one of their map lookups missed or the looked-up map is empty.", ruleMemberNeg)
 	addRules("C06", "R-MEMBER-NEG")
 	addRules("C16", "R-MERGE-PRESERVE")
